@@ -147,17 +147,18 @@ type deferred struct {
 }
 
 type Frame struct {
-	fn     *ssa.Function
-	env    map[ssa.Value]*T
-	block  *ssa.BasicBlock
-	prev   *ssa.BasicBlock
-	pc     int
-	visits map[*ssa.BasicBlock]int
-	defers []deferred
-	free   []*T
-	retTo  ssa.Value // value in the caller to bind the result to (nil: discard)
-	noAdv  bool      // on return do not advance the caller's pc (deferred call)
-	depth  int
+	fn          *ssa.Function
+	env         map[ssa.Value]*T
+	block       *ssa.BasicBlock
+	prev        *ssa.BasicBlock
+	pc          int
+	visits      map[*ssa.BasicBlock]int
+	defers      []deferred
+	free        []*T
+	retTo       ssa.Value // value in the caller to bind the result to (nil: discard)
+	retOverride *T        // set by clampSelect for `if a < b { return a }; return b`
+	noAdv       bool      // on return do not advance the caller's pc (deferred call)
+	depth       int
 }
 
 func (f *Frame) clone() *Frame {
@@ -286,6 +287,27 @@ func NewEvaluator(p *Program, cfg EvalConfig) *Evaluator {
 		cfg.Pure = defaultPure
 	}
 	return &Evaluator{P: p, TS: NewTerms(), Cfg: cfg}
+}
+
+// onlyCalled: the closure value is used for nothing but being called where it was made (never passed on, stored,
+// returned or started as a goroutine): a local helper.
+func onlyCalled(t *T) bool {
+	mc, ok := t.Site.(*ssa.MakeClosure)
+	if !ok || mc.Referrers() == nil {
+		return false
+	}
+	for _, r := range *mc.Referrers() {
+		switch u := r.(type) {
+		case *ssa.Call:
+			if u.Call.Value != mc {
+				return false
+			}
+		case *ssa.DebugRef:
+		default:
+			return false
+		}
+	}
+	return true
 }
 
 // nonNilResults: external constructors whose (first) result is never nil.
@@ -831,6 +853,9 @@ func (ev *Evaluator) runState(st *State) (*Path, []*State) {
 		switch in := instr.(type) {
 		case *ssa.If:
 			c := ev.val(st, fr, in.Cond)
+			if ev.clampSelect(st, fr, in) {
+				continue
+			}
 			r := st.Facts.Truth(ev.TS, c)
 			if r == triU {
 				other := st.clone()
@@ -860,6 +885,10 @@ func (ev *Evaluator) runState(st *State) (*Path, []*State) {
 			var rets []*T
 			for _, r := range in.Results {
 				rets = append(rets, ev.val(st, fr, r))
+			}
+			if fr.retOverride != nil && len(rets) == 1 {
+				rets[0] = fr.retOverride // the two returns of a clamp, evaluated as one (clampSelect)
+				fr.retOverride = nil
 			}
 			if len(st.frames)-1 == st.base {
 				if ev.Cfg.DecideReturns {
@@ -1028,6 +1057,198 @@ func (ev *Evaluator) runState(st *State) (*Path, []*State) {
 			return nil, forks
 		}
 	}
+}
+
+// clampSelect recognises `if a < b { x = a } else { x = b }` and its one-armed forms (`if x < lo { x = lo }`): an
+// integer comparison whose two outcomes only choose, in empty blocks, which of the two compared values flows into
+// the phis of the join. Such a diamond is min(a, b) or max(a, b) — exactly what the builtins denote — so it is
+// evaluated as that term instead of forking: a clamp written with if statements and one written with min/max have
+// the same summaries. Anything else about the shape (other instructions in the arms, other phi operands, floats)
+// leaves the ordinary path split in place.
+func (ev *Evaluator) clampSelect(st *State, fr *Frame, in *ssa.If) bool {
+	cmp, ok := in.Cond.(*ssa.BinOp)
+	if !ok || !isIntType(cmp.X.Type()) || !isIntType(cmp.Y.Type()) {
+		return false
+	}
+	switch cmp.Op {
+	case token.LSS, token.LEQ, token.GTR, token.GEQ:
+	default:
+		return false
+	}
+	b := fr.block
+	tS, fS := b.Succs[0], b.Succs[1]
+	// an arm is a block reached only from the comparison that computes values (loads, conversions, arithmetic) without
+	// effects and then jumps on
+	empty := func(x *ssa.BasicBlock) bool {
+		if len(x.Preds) != 1 || len(x.Instrs) == 0 {
+			return false
+		}
+		for i, xi := range x.Instrs {
+			if i == len(x.Instrs)-1 {
+				_, isJump := xi.(*ssa.Jump)
+				return isJump
+			}
+			switch v := xi.(type) {
+			case *ssa.FieldAddr, *ssa.Field, *ssa.Convert, *ssa.ChangeType, *ssa.BinOp, *ssa.DebugRef:
+			case *ssa.UnOp:
+				if v.Op == token.ARROW {
+					return false
+				}
+			default:
+				return false
+			}
+		}
+		return false
+	}
+	// armEnv evaluates an arm's value instructions on a scratch copy of the frame and returns that frame
+	armEnv := func(x *ssa.BasicBlock) *Frame {
+		if x == b {
+			return fr
+		}
+		s2 := st.clone()
+		f2 := s2.top()
+		for _, xi := range x.Instrs[:len(x.Instrs)-1] {
+			v, isV := xi.(ssa.Value)
+			if !isV {
+				continue
+			}
+			t, fk := ev.evalValue(s2, f2, v)
+			if t == nil || len(fk) > 0 {
+				return nil
+			}
+			f2.env[v] = t
+		}
+		return f2
+	}
+	tx, ty := ev.val(st, fr, cmp.X), ev.val(st, fr, cmp.Y)
+	// the chosen value as a term: which of the compared values flows on when the comparison holds / does not hold
+	selectTerm := func(vt, vf *T, typ types.Type) *T {
+		if vt == vf {
+			return vt
+		}
+		var pickXWhenTrue bool
+		switch {
+		case vt == tx && vf == ty:
+			pickXWhenTrue = true
+		case vt == ty && vf == tx:
+			pickXWhenTrue = false
+		default:
+			return nil
+		}
+		less := cmp.Op == token.LSS || cmp.Op == token.LEQ // X <(=) Y
+		name := "max"
+		if less == pickXWhenTrue {
+			name = "min" // X<Y ? X : Y, or X>Y ? Y : X
+		}
+		args := []*T{tx, ty}
+		sort.Slice(args, func(i, j int) bool { return args[i].id < args[j].id })
+		return ev.TS.intern(&T{Op: "app", Aux: name, Args: args, Typ: typ})
+	}
+	// `if a < b { return a }; return b`: both outcomes are blocks that only return one of the compared values
+	onlyReturn := func(x *ssa.BasicBlock) ssa.Value {
+		if len(x.Instrs) != 1 || len(x.Preds) != 1 {
+			return nil
+		}
+		if r, isRet := x.Instrs[0].(*ssa.Return); isRet && len(r.Results) == 1 {
+			return r.Results[0]
+		}
+		return nil
+	}
+	if vt, vf := onlyReturn(tS), onlyReturn(fS); vt != nil && vf != nil && len(fr.defers) == 0 {
+		sameSSA := func(u, v ssa.Value) bool {
+			if u == v {
+				return true
+			}
+			ku, ok1 := u.(*ssa.Const)
+			kv, ok2 := v.(*ssa.Const)
+			return ok1 && ok2 && ku.Value != nil && kv.Value != nil && ku.Value.ExactString() == kv.Value.ExactString()
+		}
+		t := selectTerm(ev.val(st, fr, vt), ev.val(st, fr, vf), vt.Type())
+		if t != nil && ev.val(st, fr, vt) == ev.val(st, fr, vf) {
+			// both returns denote the same term on this path (e.g. the clamped value is the constant bound itself): keep
+			// the shape the builtin would give, decided by which operand each return names
+			t = nil
+			less := cmp.Op == token.LSS || cmp.Op == token.LEQ
+			var pickX, known bool
+			switch {
+			case sameSSA(vt, cmp.X) && sameSSA(vf, cmp.Y):
+				pickX, known = true, true
+			case sameSSA(vt, cmp.Y) && sameSSA(vf, cmp.X):
+				pickX, known = false, true
+			}
+			if known {
+				name := "max"
+				if less == pickX {
+					name = "min"
+				}
+				args := []*T{tx, ty}
+				sort.Slice(args, func(i, j int) bool { return args[i].id < args[j].id })
+				t = ev.TS.intern(&T{Op: "app", Aux: name, Args: args, Typ: vt.Type()})
+			}
+		}
+		if t != nil {
+			fr.retOverride = t
+			fr.visits[tS]++
+			fr.prev = b
+			fr.block = tS
+			fr.pc = 0
+			return true
+		}
+	}
+	var join *ssa.BasicBlock
+	var tPred, fPred *ssa.BasicBlock // predecessors of the join on the true / false outcome
+	switch {
+	case empty(tS) && tS.Succs[0] == fS:
+		join, tPred, fPred = fS, tS, b
+	case empty(fS) && fS.Succs[0] == tS:
+		join, tPred, fPred = tS, b, fS
+	case empty(tS) && empty(fS) && tS.Succs[0] == fS.Succs[0]:
+		join, tPred, fPred = tS.Succs[0], tS, fS
+	default:
+		return false
+	}
+	ti, fi := -1, -1
+	for i, p := range join.Preds {
+		if p == tPred {
+			ti = i
+		}
+		if p == fPred {
+			fi = i
+		}
+	}
+	if ti < 0 || fi < 0 || ti == fi {
+		return false
+	}
+	tFrame, fFrame := armEnv(tPred), armEnv(fPred)
+	if tFrame == nil || fFrame == nil {
+		return false
+	}
+	var phis []*ssa.Phi
+	var vals []*T
+	nPhi := 0
+	for _, ji := range join.Instrs {
+		ph, isPhi := ji.(*ssa.Phi)
+		if !isPhi {
+			break
+		}
+		nPhi++
+		t := selectTerm(ev.val(st, tFrame, ph.Edges[ti]), ev.val(st, fFrame, ph.Edges[fi]), ph.Type())
+		if t == nil {
+			return false
+		}
+		phis, vals = append(phis, ph), append(vals, t)
+	}
+	if nPhi == 0 {
+		return false
+	}
+	fr.visits[join]++
+	for i, ph := range phis {
+		fr.env[ph] = vals[i]
+	}
+	fr.prev = tPred
+	fr.block = join
+	fr.pc = len(phis)
+	return true
 }
 
 func (ev *Evaluator) tuple(ts []*T) *T {
@@ -1469,6 +1690,14 @@ func (ev *Evaluator) doCall(st *State, fr *Frame, c *ssa.CallCommon, instr ssa.I
 			inline = ev.Cfg.InlineClosures
 			if ev.Cfg.Inline != nil && ev.Cfg.Inline(callee, depth) {
 				inline = true
+			}
+			// a function literal called by the function that defines it (a local helper) is part of that function
+			if !inline && !isDefer && callee.Parent() != nil && onlyCalled(e.FnTerm) {
+				for _, f := range st.frames[st.base:] {
+					if f.fn == callee.Parent() {
+						inline = true
+					}
+				}
 			}
 		} else if ev.Cfg.Inline != nil {
 			inline = ev.Cfg.Inline(callee, depth)
